@@ -596,3 +596,33 @@ def check_pastify_keeps_rejections(ix, rep, rule='R-EXH'):
                  'StlDenseTimeSpecification, `out = next(a >= 1)`: update() without pastify() raises "Next operator not implemented in STL dense-time", after pastify() it returns [[0,0.0],[1,1.0]]'
                  % ' and '.join(consumed), f.node.lineno)
     return 1
+
+
+# ------------------------------------------------------------------------------------------------- R-EXACT (dense-time conversion)
+def check_dense_conversion_exact(ix, rep, rule='R-EXACT'):
+    """one duration, one number: [0,700ms] and [0,0.7s] are the same window only if the conversion to the default unit is exact and rounded once.  A ratio of two
+    float table entries (`U[b_unit] / U[unit]`) is rounded before it multiplies the bound and the product is rounded again: 700 * (0.001 / 1) is
+    0.7000000000000001, 0.7 * (1 / 1) is 0.7"""
+    m = ix.module('rtamt.semantics.dense_time_interpreter')
+    c = m.classes.get('DenseTimeInterpreter')
+    f = c.methods.get('time_unit_transformer') if c is not None else None
+    if f is None:
+        raise AnalysisError('DenseTimeInterpreter.time_unit_transformer vanished')
+    rep.analysed(f)
+
+    def entry(e):
+        return isinstance(e, ast.Subscript) and isinstance(e.value, ast.Attribute) and e.value.attr == 'U'
+    n = 0
+    bad = []
+    for d in ast.walk(f.node):
+        if isinstance(d, ast.BinOp) and isinstance(d.op, ast.Div):
+            n += 1
+            if entry(d.left) and entry(d.right):
+                bad.append(d)
+    if bad:
+        rep.fail(rule, m.rel, f.qual, 'dense:exact-ratio', '`%s` divides two floats of the unit table and multiplies the bound with the rounded quotient: two notations of one duration get different '
+                 'windows -- unit s, x = [[0,1],[0.7,3],[1.4,2],[2.1,0],[5,0]]: once[0,700ms](x) = [[0,1],[0.7,3],[2.1,2],[2.8000000000000003,0],[5.7,0]], '
+                 'once[0,0.7s](x) = [[0,1],[0.7,3],[2.0999999999999996,2],[2.8,0],[5.7,0]]' % ast.unparse(bad[0])[:60], bad[0].lineno)
+    else:
+        rep.ok(rule, m.rel, f.qual, 'dense:exact-ratio', 'the conversion factor is an exact rational, the bound is rounded once', f.node.lineno)
+    return max(n, 1)
